@@ -1,7 +1,7 @@
 #!/bin/bash
 # Run every check against every behaviour-preserving change under benign/: apply to /repo's working tree, ./check <all> quick, revert.
 # Every check must exit 0 (no VIOLATION line): a report here is a false alarm of the machinery. Usage: run_benign.sh [dir ...]
-V="$(cd "$(dirname "$0")/.." && pwd)"; REPO="${VERIF_REPO:-/repo}"; export VERIF_REPO="$REPO"; cd $V; bad=0; T=$(mktemp -d /tmp/urisim_mut.XXXXXX)
+V="$(cd "$(dirname "$0")/.." && pwd)"; REPO="${VERIF_REPO:-/repo}"; export VERIF_REPO="$REPO"; cd $V; bad=0; mkdir -p $V/build; T=$(mktemp -d $V/build/mut.XXXXXX)
 PROPS="${PROPS:-C03 C05 C07 C11 C12 C13 C14 C15 C17 C20}"
 dirs="$@"; [ -n "$dirs" ] || dirs=$(ls -d benign/*/)
 for d in $dirs; do
